@@ -133,6 +133,12 @@ func (n *NSQD) lookupLoop() {
 				} else {
 					cmd = nsq.Register(channel.topicName, channel.name)
 				}
+				// notifications are sent by independent goroutines and can arrive out
+				// of order (a deletion after the re-creation that followed it): never
+				// unregister a name that is live again
+				if channel.Exiting() && n.channelIsLive(channel.topicName, channel.name) {
+					cmd = nsq.Register(channel.topicName, channel.name)
+				}
 			case *Topic:
 				// notify all nsqlookupds that a new topic exists, or that it's removed
 				branch = "topic"
@@ -140,6 +146,9 @@ func (n *NSQD) lookupLoop() {
 				if topic.Exiting() {
 					cmd = nsq.UnRegister(topic.name, "")
 				} else {
+					cmd = nsq.Register(topic.name, "")
+				}
+				if topic.Exiting() && n.topicIsLive(topic.name) {
 					cmd = nsq.Register(topic.name, "")
 				}
 			}
@@ -173,6 +182,29 @@ func (n *NSQD) lookupLoop() {
 
 exit:
 	n.logf(LOG_INFO, "LOOKUP: closing")
+}
+
+// topicIsLive reports whether a topic of that name currently exists and is not
+// being deleted or closed
+func (n *NSQD) topicIsLive(name string) bool {
+	n.RLock()
+	t, ok := n.topicMap[name]
+	n.RUnlock()
+	return ok && !t.Exiting()
+}
+
+// channelIsLive does the same for a channel
+func (n *NSQD) channelIsLive(topicName string, name string) bool {
+	n.RLock()
+	t, ok := n.topicMap[topicName]
+	n.RUnlock()
+	if !ok || t.Exiting() {
+		return false
+	}
+	t.RLock()
+	c, ok := t.channelMap[name]
+	t.RUnlock()
+	return ok && !c.Exiting()
 }
 
 func in(s string, lst []string) bool {
